@@ -121,15 +121,10 @@ structure Date where
 
 def Date.valid (x : Date) : Prop := 1 ≤ x.y ∧ x.y ≤ 9999 ∧ 1 ≤ x.m ∧ x.m ≤ 12 ∧ 1 ≤ x.d ∧ x.d ≤ 31
 
-/-- C `%d`-style year without padding (what glibc's `strftime('%Y')` prints), for years up to 9999 -/
-def yearUnpadded (y : Nat) : List Char :=
-  if y < 10 then padN 1 y else if y < 100 then padN 2 y else if y < 1000 then padN 3 y else padN 4 y
-
-/-- `SQLiteDateConverter.py2sql`.  `padY = false`: `val.strftime('%Y-%m-%d')` on a platform whose `%Y` does not
-    zero-pad (glibc); `padY = true`: zero-padded 4-digit year (`val.isoformat()`, or strftime on macOS/Windows).
-    Which one the running code does is decided by the tie on every run. -/
-def dateToText (padY : Bool) (x : Date) : List Char :=
-  (if padY then padN 4 x.y else yearUnpadded x.y) ++ ('-' :: (padN 2 x.m ++ ('-' :: padN 2 x.d)))
+/-- `SQLiteDateConverter.py2sql` = `val.isoformat()`: `YYYY-MM-DD`, the year zero-padded to four digits
+    (since fix fcbaef7; before it `strftime('%Y-%m-%d')`, whose `%Y` glibc does not pad) -/
+def dateToText (x : Date) : List Char :=
+  padN 4 x.y ++ ('-' :: (padN 2 x.m ++ ('-' :: padN 2 x.d)))
 
 def parseDateText (s : List Char) : Option Date :=
   match takeDigits 4 s with
@@ -145,7 +140,7 @@ def parseDateText (s : List Char) : Option Date :=
           | some (d, s5) =>
             if s5 = [] ∧ 1 ≤ y ∧ 1 ≤ m ∧ m ≤ 12 ∧ 1 ≤ d ∧ d ≤ 31 then some ⟨y, m, d⟩ else none
 
-def dateToSql (padY : Bool) (x : Date) : Sql := .text (dateToText padY x)
+def dateToSql (x : Date) : Sql := .text (dateToText x)
 
 /-- `SQLiteDateConverter.sql2py`: `time.strptime(val[:10], '%Y-%m-%d')`, any exception → `return val`
     (modelled on zero-padded fixed-width fields, which is what `%Y` = four digits requires; day-of-month against the month
@@ -251,7 +246,7 @@ def DateTime.valid (x : DateTime) : Prop := x.date.valid ∧ x.time.valid
 def datetimeValidate (p : Nat) (x : DateTime) : DateTime := { x with time := timeValidate p x.time }
 
 /-- `datetime.isoformat(' ')` -/
-def isoDateTime (x : DateTime) : List Char := dateToText true x.date ++ (' ' :: timeToText x.time)
+def isoDateTime (x : DateTime) : List Char := dateToText x.date ++ (' ' :: timeToText x.time)
 
 /-- `pony.utils.datetime2timestamp` -/
 def datetime2timestamp (x : DateTime) : List Char :=
